@@ -145,6 +145,10 @@ func pktSummary(p *astits.Packet) Tok {
 	return L(I(int64(p.Header.PID)), I(int64(p.Header.ContinuityCounter)), Bool(p.Header.PayloadUnitStartIndicator), I(int64(len(p.Payload))))
 }
 
+// scenarioScribble, when set, receives every value a Demuxer call returned, after it was serialised (C16 overwrites
+// it, as an application that edits what it was handed would).
+var scenarioScribble func(v interface{})
+
 // scenarioAfterCall, when set, runs after every Demuxer call of a scenario (C16 uses it to disturb the payload pool).
 var scenarioAfterCall func()
 
@@ -303,6 +307,9 @@ func runScenario(s scenario) *demuxRun {
 			scenarioAfterCall()
 		}
 		out.data = append(out.data, d)
+		if d != nil && scenarioScribble != nil {
+			scenarioScribble(d)
+		}
 		if d != nil {
 			out.held = append(out.held, d)
 		} else {
@@ -324,6 +331,9 @@ func runScenario(s scenario) *demuxRun {
 			scenarioAfterCall()
 		}
 		out.packets = append(out.packets, p)
+		if p != nil && scenarioScribble != nil {
+			scenarioScribble(p)
+		}
 		if p != nil {
 			out.held = append(out.held, p)
 		} else {
